@@ -18,6 +18,10 @@ integer machinery: their rank facts come from an SVD with thresholds far from bo
 ASSUMPTIONS), the reference space is built from the atoms' contracts, the dimension formula counts
 the atom's columns (driver field "widths").
 
+The same rank facts are evaluated on the matrices `common.evaluate_new_data` returns for the training
+frame and a row-permuted copy (prediction stage), and families are also written with the distributive
+operators (`a:(b + c)`, `(a + b):c`, `a*(b + c)`, `a/(b + c)`, ...).
+
 Failures on the unchanged tree fall into the classes D6–D9 (+ D21); each is classified by a Lean guard
 predicate and must equal the model's prediction to count as a known finding.
 """
@@ -49,6 +53,18 @@ ASSUMPTIONS = [
     "executable only: C03_columns_count is proved for one-column numeric atoms); each such case is "
     "observed in a freshly forked process, so a failing case does not depend on designs built before "
     "it (history dependence is C07)",
+    "prediction stage: every common-effects matrix handed out for complete-factorial data falls under "
+    "the statement, so the matrix common.evaluate_new_data returns for the training frame itself and "
+    "for a row-permuted copy is judged by the same facts (rank = number of columns = rank of the "
+    "full-indicator reference built on that frame = rank of [X | F]; exact integers, SVD for the "
+    "multi-column atoms), for a sample of 12 % of the cases of every kind in the quick tier, all in the "
+    "thorough tier, and for every case written with a distributive operator; judged where the training "
+    "matrix itself satisfies the facts (a design defective at training is reported once, there)",
+    "families written with the distributive operators (case kinds distributive/...): T:(S), (S):T, "
+    "T*(S), T/(S), (S)*T, (S):(S) with T a term of one or two atoms and S a parenthesised sum of two or "
+    "three terms, optionally among other terms; the intended family is the expansion by the term algebra "
+    "(':' distributes over '+', a*b = a + b + a:b, a/b = a + a:b; first of two identical terms kept) and is "
+    "compared with what the resolver produced (a case whose family differs is skipped and counted)",
     "component kinds (numeric / categoric) and Call-ness are taken from the generator's atom table "
     "and cross-checked against the implementation's component objects",
     "create_extra_term's deepcopy of a typed Call raises for every ordinary caller (the captured "
@@ -352,22 +368,52 @@ def observe(case):
     if M.ndim != 2:
         out["err"] = "matrix-not-2d"
         return out
+    try:
+        labels = list(dm.common.as_dataframe().columns)
+    except Exception as e:  # noqa
+        labels = ["!" + type(e).__name__]
+    out["labels"] = labels
+    out["widths"] = [[name, int(sl.stop - sl.start)] for name, sl in dm.common.slices.items()]
+    out.update(rank_facts(M, df, terms, intercept, case, cats, nums))
+    # prediction stage: every common-effects matrix handed out for complete-factorial data falls
+    # under the statement -- the matrix common.evaluate_new_data returns for the training frame
+    # itself and for a row-permuted copy of it, judged by the same rank / column-space facts
+    if case.get("predict"):
+        out["new"] = []
+        perm = list(range(len(df)))
+        rng_for(case.get("shuffle", 0), "c03", "new-rows", case["formula"]).shuffle(perm)
+        for frame in ("same", "permuted"):
+            nd = df if frame == "same" else df.iloc[perm].reset_index(drop=True)
+            try:
+                with contextlib.redirect_stdout(io.StringIO()):
+                    new = dm.common.evaluate_new_data(nd)
+                Mn = np.asarray(new.design_matrix)
+                if Mn.ndim != 2:
+                    raise ValueError("matrix-not-2d")
+            except Exception as e:  # noqa
+                out["new"].append({"frame": frame, "err": type(e).__name__})
+                continue
+            out["new"].append(dict(rank_facts(Mn, nd, terms, intercept, case, cats, nums), frame=frame))
+    return out
+
+
+def rank_facts(M, df, terms, intercept, case, cats, nums):
+    """the rank facts of one matrix `M` whose rows belong to the rows of `df`: number of columns,
+    rank of M, rank of the full-indicator reference F built on `df`, rank of [M | F] (exact integer
+    elimination; SVD for the cases with multi-column numeric atoms)"""
+    import numpy as np
+    grid = case.get("grid", "int")
+    out = {}
     if is_wide(case):
         # multi-column numeric atoms: floating-point rank facts of X, F and [X | F]
         out["float_path"] = True
         out["integral"] = True
         out["ncols"] = int(M.shape[1])
         out["nrows"] = int(M.shape[0])
-        try:
-            labels = list(dm.common.as_dataframe().columns)
-        except Exception as e:  # noqa
-            labels = ["!" + type(e).__name__]
-        out["labels"] = labels
-        out["widths"] = [[name, int(sl.stop - sl.start)] for name, sl in dm.common.slices.items()]
         F = full_indicator_float(df, terms, intercept)
         rx, ax, gx = float_rank(M)
         rf, af, gf = float_rank(F)
-        rj, aj, gj = float_rank(np.column_stack([M, F]))
+        rj, aj, gj = float_rank(np.column_stack([M, F])) if M.shape[0] == F.shape[0] else (-1, False, [None, None])
         out["rank"], out["rank_full"], out["rank_joint"] = rx, rf, rj
         out["rank_ambiguous"] = bool(ax or af or aj)
         out["sv_gaps"] = {"X": gx, "F": gf, "XF": gj}
@@ -379,14 +425,9 @@ def observe(case):
     X = R.astype(np.int64)
     out["ncols"] = int(X.shape[1])
     out["nrows"] = int(X.shape[0])
-    try:
-        labels = list(dm.common.as_dataframe().columns)
-    except Exception as e:  # noqa
-        labels = ["!" + type(e).__name__]
-    out["labels"] = labels
-    out["widths"] = [[name, int(sl.stop - sl.start)] for name, sl in dm.common.slices.items()]
     # exact rank facts: [X | F]
     Fcols = full_indicator(df, terms, intercept, grid)
+    # (the rank of F does not depend on the order of the rows: one computation per family and frame)
     fkey = (tuple(cats), tuple(nums), tuple(case["levels"][c] for c in cats), case.get("shuffle", 0),
             grid, intercept, frozenset((frozenset(t)) for t in terms))
     if fkey not in _RANKF:
@@ -394,6 +435,9 @@ def observe(case):
         _RANKF[fkey] = rank_profile(Frows, len(Fcols))[1] if Fcols else 0
     out["rank_full"] = _RANKF[fkey]
     Xrows = X.tolist()
+    if len(Xrows) != len(df):
+        out["rank"], out["rank_joint"] = -1, -1
+        return out
     joint = [xr + [fc[i] for fc in Fcols] for i, xr in enumerate(Xrows)]
     rx, rj = rank_profile(joint, out["ncols"])
     out["rank"] = rx
@@ -507,6 +551,116 @@ def swap_atoms(rng, terms):
     return [[mapping[a] for a in t] for t in terms]
 
 
+# ------------------------------------------------------------------------------------------------
+# families written with the distributive operators: a:(b + c), (a + b):c, a*(b + c), a/(b + c), ...
+# ------------------------------------------------------------------------------------------------
+def term_product(a, b):
+    """the interaction of two terms: the atoms of `a`, then the atoms of `b` not yet present"""
+    return list(a) + [x for x in b if x not in a]
+
+
+def dedup_terms(terms):
+    """a model keeps the first of two identical terms (identity = the ordered atom list)"""
+    out = []
+    for t in terms:
+        if t not in out:
+            out.append(t)
+    return out
+
+
+DISTRIBUTIVE_FORMS = ["T:(S)", "T:(S)", "(S):T", "T*(S)", "T/(S)", "(S)*T", "(S):(S)"]
+
+
+def expand_distributive(form, left, right):
+    """(text, terms) of one distributive expression; `left` / `right` are a term (atom list) where
+    the form says T and a sum (list of terms) where it says S.  Expansion by the term algebra of the
+    statement of C02 (':' distributes over '+', a*b = a + b + a:b, a/b = a + a:b), in the order the
+    products are written: left operand outermost"""
+    def tt(t):
+        return ":".join(t)
+
+    def st(sm):
+        return "(" + " + ".join(tt(t) for t in sm) + ")"
+
+    if form == "T:(S)":
+        return tt(left) + ":" + st(right), [term_product(left, r) for r in right]
+    if form == "(S):T":
+        return st(left) + ":" + tt(right), [term_product(l, right) for l in left]
+    if form == "T*(S)":
+        return tt(left) + "*" + st(right), [left] + right + [term_product(left, r) for r in right]
+    if form == "T/(S)":
+        return tt(left) + "/" + st(right), [left] + [term_product(left, r) for r in right]
+    if form == "(S)*T":
+        return st(left) + "*" + tt(right), left + [right] + [term_product(l, right) for l in left]
+    if form == "(S):(S)":
+        return st(left) + ":" + st(right), [term_product(l, r) for l in left for r in right]
+    raise ValueError(form)
+
+
+def gen_distributive(rng, levels, shuffle):
+    """one case whose formula is written with a distributive operator over a parenthesised sum,
+    possibly among other terms; every product term must own its components"""
+    variables = CAT_VARS + NUM_VARS
+    while True:
+        form = rng.choice(DISTRIBUTIVE_FORMS)
+        vs = list(variables)
+        rng.shuffle(vs)
+
+        def take_term(pool, sizes):
+            k = min(rng.choice(sizes), len(pool))
+            return [pool.pop() for _ in range(k)]
+
+        def take_sum(pool):
+            out = []
+            own = [pool.pop() for _ in range(min(rng.choice([2, 2, 3]), len(pool)))]
+            for v in own:
+                t = [v]
+                if rng.random() < 0.2 and len(own) > 1:
+                    t.append(rng.choice([w for w in own if w != v]))
+                out.append(t)
+            return dedup_terms(out)
+
+        left = take_sum(vs) if form.startswith("(S)") else take_term(vs, [1, 1, 1, 2])
+        right = take_sum(vs) if form.endswith("(S)") else take_term(vs, [1, 1, 1, 2])
+        text, terms = expand_distributive(form, left, right)
+        used = {a for t in terms for a in t}
+        if not used & set(CAT_VARS):
+            continue
+        if sum(1 for v in used if v in CAT_VARS) > 3:
+            continue                                          # keep the complete factorial small
+        break
+    # other terms written before / after the distributive expression
+    pool = nonempty_subsets(sorted(used) + [v for v in ("f", "x") if v not in used])
+    pool = [t for t in pool if len(t) <= 2]
+    before = permute_factors(rng, rng.sample(pool, rng.choice([0, 0, 1])))
+    after = permute_factors(rng, rng.sample(pool, rng.choice([0, 0, 1])))
+    mapping = {}
+    for v in CAT_VARS:
+        mapping[v] = rng.choice([v, v, v, f"C({v})", f"T({v})", f"S({v})"])
+    mapping["x"] = rng.choice(["x", "x", "scale(x)"])
+    mapping["z"] = "z"
+
+    def ren(ts):
+        return [[mapping[a] for a in t] for t in ts]
+
+    if form.startswith("(S)"):
+        left = ren(left)
+    else:
+        left = ren([left])[0]
+    if form.endswith("(S)"):
+        right = ren(right)
+    else:
+        right = ren([right])[0]
+    text, terms = expand_distributive(form, left, right)
+    before, after = ren(before), ren(after)
+    intercept = rng.random() < 0.6
+    parts = [":".join(t) for t in before] + [text] + [":".join(t) for t in after]
+    fam = dedup_terms(before + terms + after)
+    formula = ("y ~ " if intercept else "y ~ 0 + ") + " + ".join(parts)
+    return {"formula": formula, "terms": (["1"] if intercept else []) + fam, "levels": levels,
+            "shuffle": shuffle, "kind": "distributive/" + form, "predict": True}
+
+
 def gen_cases(tier, seed):
     rng = rng_for(seed, "c03", "cases")
     levels = level_counts(rng)
@@ -609,7 +763,24 @@ def gen_cases(tier, seed):
         if rng.random() < 0.5 and any(t != "1" and any(atom_info(a)[0] == "n" for a in t)
                                       for t in c["terms"]):
             c["grid"] = "half"
-    return cases + wide_cases
+    # (j) families written with the distributive operators (own PRNG stream: the cases above do not
+    #     depend on how many of these there are)
+    rng_j = rng_for(seed, "c03", "distributive")
+    dist_cases = []
+    for _ in range(200 if tier == "quick" else 4000):
+        c = gen_distributive(rng_j, levels, shuffle)
+        if rng_j.random() < 0.5 and any(t != "1" and any(atom_info(a)[0] == "n" for a in t)
+                                        for t in c["terms"]):
+            c["grid"] = "half"
+        dist_cases.append(c)
+    # prediction stage (common.evaluate_new_data on the training frame and on a row-permuted copy):
+    # every case in the thorough tier, a sample of the cases of every kind in the quick tier
+    rng_p = rng_for(seed, "c03", "predict-sample")
+    share = {"quick": 0.12}.get(tier, 1.0)
+    for c in cases + wide_cases:
+        if rng_p.random() < share:
+            c["predict"] = True
+    return cases + dist_cases + wide_cases
 
 
 def pick_groups(tier, seed):
@@ -666,7 +837,11 @@ def explore(tier, seed, res=None, replay=None):
                 "least two terms (counting the intercept), so that the redundancy analysis has a "
                 "choice to make; distinct by formula string / by group.  Atoms: plain variables, C / T / "
                 "S / scale calls (exact integer path) and poly(v, 2) / bs(v, df=3) as numeric atoms with "
-                "2 / 3 columns (floating-point rank path, numeric grids of four values)")
+                "2 / 3 columns (floating-point rank path, numeric grids of four values).  Families are "
+                "written term by term and (kind distributive/...) with ':' '*' '/' over a parenthesised "
+                "sum.  Prediction stage: common.evaluate_new_data on the training frame and on a "
+                "row-permuted copy, same rank / column-space facts (sample of the cases in quick, all "
+                "in thorough, every distributive case)")
     procs = int(os.environ.get("VERIF_PROCS", "6" if tier == "quick" else "12"))
     procs = max(1, min(procs, os.cpu_count() or 1))
 
@@ -756,6 +931,8 @@ def explore(tier, seed, res=None, replay=None):
         if c.get("grid"):
             case["grid"] = c["grid"]
             res.count("grid:" + c["grid"])
+        if c.get("predict"):
+            case["predict"] = True
         if "md_err" in io or io.get("md") != c["terms"]:
             # the resolver did not produce the intended family: not a C03 case (term algebra, C02)
             res.count("skipped:resolver-family-differs")
@@ -841,6 +1018,48 @@ def explore(tier, seed, res=None, replay=None):
             res.count("holds")
             if classes and classes != ["duplicateTermUpToOrder"]:
                 res.count("holds-inside-class:" + ",".join(classes))
+        # ---- prediction stage: the matrices common.evaluate_new_data hands out for the training
+        # frame and for a row-permuted copy (complete-factorial data as well) satisfy the same rank /
+        # column-space facts.  Judged where the training matrix satisfies them (a matrix that is
+        # defective already at training is reported above, once)
+        train_matrix_ok = ("err" not in io and io.get("integral") and not io.get("rank_ambiguous")
+                           and io["rank"] == io["ncols"] == io["rank_full"] == io["rank_joint"])
+        for nw in (io.get("new") or []):
+            if not train_matrix_ok:
+                res.count("predict:not-judged (training matrix fails)")
+                continue
+            res.evaluations += 1
+            res.count("predict:" + nw["frame"])
+            res.count("predict:kind:" + c["kind"].split("/")[0])
+            where = f"common.evaluate_new_data on the {nw['frame']} training frame"
+            why_new = None
+            if "err" in nw:
+                why_new = f"{where} raised {nw['err']}"
+            elif not nw["integral"]:
+                why_new = f"harness assumption broken: {where}: matrix entries are not integers"
+            elif nw.get("rank_ambiguous"):
+                why_new = (f"{where}: floating-point rank not clear-cut (a singular value between "
+                           f"{RANK_ZERO} and {RANK_TOL} of the largest)")
+            elif nw["nrows"] != io["nrows"]:
+                why_new = f"{where}: number of rows differs from the frame's"
+            elif not (nw["rank"] == nw["ncols"]):
+                why_new = (f"{where}: columns are linearly dependent ({nw['ncols']} columns, rank "
+                           f"{nw['rank']}; dimension of the model space {nw['rank_full']})")
+            elif not (nw["rank_joint"] == nw["rank_full"] == nw["rank"]):
+                why_new = (f"{where}: the column space differs from the full-indicator space (rank "
+                           f"{nw['rank']}, model space {nw['rank_full']}, joint {nw['rank_joint']})")
+            elif nw["ncols"] != io["ncols"]:
+                why_new = f"{where}: number of columns differs from the training matrix"
+            if why_new:
+                nfacts = {k: nw.get(k) for k in ("ncols", "rank", "rank_full", "rank_joint", "nrows")}
+                res.failures.append({"case": dict(case, stage="predict", new_frame=nw["frame"]),
+                                     "impl": dict(i_view, training=facts, new=nfacts),
+                                     "expected": {"rank": facts.get("ncols"), "rank_full": facts.get("rank_full"),
+                                                  "rank_joint": facts.get("rank_full")},
+                                     "why": why_new, "finding": None})
+                res.count("fail:predict:UNCLASSIFIED")
+            else:
+                res.count("predict:holds")
         # instances of the theorems, re-checked on the implementation's output
         if mo["pipeline_guard"]:
             res.count("inside-guard-of-C03_pipeline_partial")
